@@ -23,6 +23,8 @@ FINDLOOK = LOOKX + ("Option::<T>::ok_or_else", "Option::<T>::ok_or")
 
 SCOPE_EXCLUDE = (
     (re.compile(r"^<.* as clap::"), "clap derive output: runs while parsing the command line (configuration)"),
+    (re.compile(r"^(build_docs|selection_help)::"), "documentation generator, compiled only with the create-docs "
+                                                   "feature and reached only through --additional-help mk-book"),
 )
 
 
@@ -231,6 +233,8 @@ def collect(crate, apis):
                     hit = True
                 if "name_contains" in api and (api["name_contains"] in nm or api["name_contains"] in (c.full or "")):
                     hit = True
+                if hit and any(x in (c.full or "") for x in api.get("except_contains", [])):
+                    hit = False
                 if hit:
                     found.append(Site(b, c.bb, "call:" + api["id"], c.where(), call=c))
                     break
@@ -1004,7 +1008,9 @@ def census(rep, ctx, rid="C05-PANIC-CENSUS", crates=("lib", "bin")):
                 r.bad(key, "a possible panic that no structural argument discharges and the table does not list: %s%s"
                       % (what, ("; " + s.detail) if s.detail else ""), s.where)
     for key, t in sorted(tab.items()):
-        if key not in seen and not t.get("config"):
+        if getattr(ctx, "config", "dev") != "dev":
+            break    # release builds have no overflow asserts, the docs feature adds bodies: staleness is judged on dev
+        if key not in seen and not t.get("only_with_feature"):
             r.bad("stale:" + key, "sa/tables/panic_sites.toml lists a site that no longer exists in the tree (the table "
                   "must describe the current code)", "", nontrivial=False)
     r.note("classes: %s" % sorted(by_class.items()))
